@@ -190,7 +190,7 @@ theorem inv_removed {ctx : Ctx} {g g' : Graph} {n : Nat} {nd : Node}
     | dep =>
       rw [hek] at hkk
       simp only at hkk ⊢
-      rw [setSat_isDef, setSat_isDef]; exact hkk
+      rw [setSat_defTy, setSat_defTy]; exact hkk
   · rw [r.edges]
     exact (List.Sublist.filterMap _ List.filter_sublist).nodup h.argUnique
   · -- nodes
@@ -239,7 +239,7 @@ theorem inv_removed {ctx : Ctx} {g g' : Graph} {n : Nat} {nd : Node}
             cases hek : e0.kind with
             | alias j => rfl
             | arg j => rw [hek] at hk0; simp only at hk0; rw [hni] at hk0; exact absurd hk0.2.1 (by simp)
-            | dep => rw [hek] at hk0; simp only at hk0; simp [Node.isDef, hk] at hk0
+            | dep => rw [hek] at hk0; have hdd := (dep_isDef hk0).2; simp [Node.isDef, hk] at hdd
           have hsrc : e0.src ≠ n := fun e => by rw [hnoalias e0 he0.1 e] at hal; cases hal
           rw [r.edges, List.filter_filter]
           have : (g.edges.filter fun a => (a.dst == m) && !(a.src == n || a.dst == n)) =
